@@ -9,7 +9,7 @@ compared (duplicates are C02's business).
 from __future__ import annotations
 
 from .. import qast as Q
-from ..common import (X, Y, A, leaves_single, leaves_xy, REPRESENTATIVE_4, REPRESENTATIVE_8, XY_REP, rich_world, VARS3, VARS_SELF,
+from ..common import (X, Y, A, L, leaves_single, leaves_xy, REPRESENTATIVE_4, REPRESENTATIVE_8, XY_REP, rich_world, VARS3, VARS_SELF,
                       grid_world, eval_rows, diff_rows, row_labels, is_exc, root_kind, to_fn_form)
 from ..isolate import run_isolated
 from ..space import trees_by_depth
@@ -56,6 +56,13 @@ def cases(tier, inst):
     for t in trees_by_depth(SELF_LEAVES[:4] if thorough else SELF_LEAVES[:3], 2):
         if Q.depth(t) == 2:
             yield ("self", t, "op")
+    # values that are only PARTIALLY ordered (sets under <, <=) or unordered (NaN): not_(a < b) is `not a < b`, which is
+    # not `a >= b` there
+    for t in trees_by_depth(PO_LEAVES, 1):
+        yield ("po", t, "op")
+    for t in trees_by_depth(PO_LEAVES[:4], 2):
+        if Q.depth(t) == 2 and (thorough or hash(t) % 3 == 0):
+            yield ("po", t, "op")
     if thorough:
         for pair in ((REPRESENTATIVE_8[0], REPRESENTATIVE_8[2]), (XY_REP[0], XY_REP[3])):
             vk = "xy" if pair[0] in XY_REP else "x"
@@ -68,12 +75,22 @@ SELF_LEAVES = [("cmp", "eq", X, Y), ("cmp", "ne", X, Y), ("cmp", "eq", X, ("ob",
                ("cmp", "lt", A(X, "p"), A(Y, "p")), ("cmp", "eq", A(X, "q"), A(Y, "q"))]
 
 
+_fs = lambda *e: ("fset!",) + e      # noqa: E731
+PO_ROWS = ((("t", _fs()), ("p", 1)), (("t", _fs(1)), ("p", "nan!")), (("t", _fs(2)), ("p", 2)), (("t", _fs(1, 2)), ("p", 1)),
+           (("t", _fs(1)), ("p", 3)))
+PO_WORLD = (("DA", "Item", PO_ROWS),)
+PO_LEAVES = [("cmp", op, A(X, "t"), A(Y, "t")) for op in ("lt", "le", "gt", "ge")] + \
+            [("cmp", "lt", A(X, "t"), ("lfs", 1, 2)), ("cmp", "ge", ("lfs", 1), A(Y, "t")),
+             ("cmp", "lt", A(X, "p"), A(Y, "p")), ("cmp", "ge", A(X, "p"), L(2)), ("cmp", "le", L(1), A(Y, "p")),
+             ("cmp", "eq", A(X, "p"), A(Y, "p")), ("cmp", "ne", A(X, "t"), A(Y, "t"))]
+
+
 def queries_of(case):
     vk, t, form = case
     neg = "inv" if form == "fn" else "not"
     if vk == "x":
         vars_, sel = VARS1, (X,)
-    elif vk == "self":
+    elif vk in ("self", "po"):
         vars_, sel = VARS_SELF, (X, Y)
     else:
         vars_, sel = VARS3[:2], (X, Y)
@@ -83,7 +100,7 @@ def queries_of(case):
 
 def run_case(case, inst):
     qc, qn, qnn = queries_of(case)
-    wspec = GRID if case[0] == "x" else RICH
+    wspec = GRID if case[0] == "x" else (PO_WORLD if case[0] == "po" else RICH)
 
     def body():
         out = []
@@ -122,7 +139,7 @@ def run_case(case, inst):
 
 def describe(case, inst):
     qc, qn, qnn = queries_of(case)
-    wspec = GRID if case[0] == "x" else RICH
+    wspec = GRID if case[0] == "x" else (PO_WORLD if case[0] == "po" else RICH)
     return (Q.up_world(wspec, inst) + "\n# each variant on a fresh world / fresh build:\n"
             + "\n".join(Q.up_query(q, inst) for q in (qc, qn, qnn))
             + "\n# expected: rows(not_(c)) == product - rows(c); rows(not_(not_(c))) == rows(c)")
